@@ -23,6 +23,7 @@ import (
 var rec = vk.NewRecorder("C16")
 
 func TestMain(m *testing.M) {
+	vk.Disturb = gen.Disturb
 	code := m.Run()
 	rec.Flush("all")
 	os.Exit(code)
